@@ -257,9 +257,9 @@ def flags(repo: Repo) -> List[Ob]:
                             # a constant is right only where the guard pins the flag to it
                             pinned = all(dict(st[1])[flag] == passed.value for st in seen[node])
                             (obs.append(ok("FLAGS", fi, key, props, x, f"`{flag}` pinned to {passed.value} by the guard")) if pinned else
-                             obs.append(bad("FLAGS", fi, key, props, x, f"`{flag}` is replaced by the constant {passed.value} when delegating to {cname}")))
+                             obs.append(bad("FLAGS", fi, key, props, x, f"`{flag}` is replaced by the constant {passed.value} when delegating to {cname}", code=f"constant:{passed.value}")))
                         elif isinstance(passed, ast.UnaryOp) and isinstance(passed.op, ast.Not) and src(passed.operand) == flag:
-                            obs.append(bad("FLAGS", fi, key, props, x, f"`{flag}` is inverted when delegating to {cname}"))
+                            obs.append(bad("FLAGS", fi, key, props, x, f"`{flag}` is inverted when delegating to {cname}", code="inverted"))
                         else:
                             obs.append(skip("FLAGS", fi, key, props, x, f"`{flag}` passed as `{src(passed)}`"))
                         continue
@@ -273,7 +273,7 @@ def flags(repo: Repo) -> List[Ob]:
                         obs.append(ok("FLAGS", fi, key, props, x, f"`{flag}` is pinned to the callee default by the enclosing guard"))
                     else:
                         obs.append(bad("FLAGS", fi, key, props, x,
-                                       f"{fi.qualname} receives `{flag}` but calls {cname} without it: the callee runs with its default ({', '.join(map(str, defaults))})"))
+                                       f"{fi.qualname} receives `{flag}` but calls {cname} without it: the callee runs with its default ({', '.join(map(str, defaults))})", code="dropped"))
     if n_calls < 15 or shared_sites < 15:
         raise AnalysisError(f"FLAGS: only {n_calls} action->action calls / {shared_sites} shared-flag sites found")
     return obs
